@@ -37,7 +37,16 @@ def K(j, var, A, B):
         return var
     if j == 1:
         return A
-    return B
+    if j == 2:
+        return B
+    # compound kinds (selector range 0..6): variable at depth 1, variable at depth 2, ground compounds
+    if j == 3:
+        return Term('f', -7)
+    if j == 4:
+        return Term('f', Term('g', -7))
+    if j == 5:
+        return Term('f', A)
+    return Term('f', Term('g', A))
 
 
 def build(kinds, arity, A, B):
@@ -53,10 +62,18 @@ def build(kinds, arity, A, B):
     return ci, clauses
 
 
+def _ground(t):
+    if t is None or isinstance(t, int):
+        return False
+    return all(_ground(x) for x in t.args)
+
+
 def expected(clauses, call):
+    """a ground call argument selects the clauses whose head argument is equal or not ground; a call argument that
+    contains a variable (at any depth) does not restrict"""
     out = []
     for cid, args in clauses:
-        if all(c is None or a is None or a == c for a, c in zip(args, call)):
+        if all((not _ground(c)) or (not _ground(a)) or a == c for a, c in zip(args, call)):
             out.append(cid)
     return out
 
@@ -146,7 +163,7 @@ def find_ok(kinds, arity, calls):
 '''
 
 
-def harness(idx, nclauses, arity, ncalls, prefix=()):
+def harness(idx, nclauses, arity, ncalls, prefix=(), hi=2):
     """prefix: concrete kinds of the leading selectors (splits the selector space of a condition: at most 7 stay symbolic)"""
     names = []
     kinds = []
@@ -173,11 +190,12 @@ def harness(idx, nclauses, arity, ncalls, prefix=()):
             row.append(n)
         calls.append("(%s,)" % ", ".join(row))
     sig = ", ".join("%s: int" % n for n in names)
-    pre = " and ".join("0 <= %s <= 2" % n for n in names)
+    pre = " and ".join("0 <= %s <= %d" % (n, hi) for n in names)
     body = "    return find_ok([%s], %d, [%s])" % (", ".join(kinds), arity, ", ".join(calls))
     name = "h_ci_%d" % idx
     src = 'def %s(%s) -> bool:\n    """\n    pre: %s\n    post: _\n    """\n%s\n' % (name, sig, pre, body)
-    return xh.Harness(name, src, {"clauses": nclauses, "arity": arity, "calls": ncalls, "first": "".join(str(x) for x in prefix) or None})
+    return xh.Harness(name, src, {"clauses": nclauses, "arity": arity, "calls": ncalls, "kinds": hi + 1,
+                                  "first": "".join(str(x) for x in prefix) or None})
 
 
 NVARS = {0: 1, 1: 1, 2: 0, 3: 2, 4: 0, 5: 0}
@@ -230,6 +248,12 @@ def main(tier, seed):
         for prefix in itertools.product(range(3), repeat=max(0, nsel - 7)):
             i += 1
             hs.append(harness(i, ncl, ar, nq, prefix))
+    # seven argument kinds (compound terms, variables at depth 1 and 2)
+    for ncl, ar, nq in ([(2, 1, 1), (3, 1, 1)] + ([(2, 2, 1), (3, 1, 2), (4, 1, 1)] if tier == "thorough" else [])):
+        nsel = ncl * ar + nq * ar
+        for prefix in itertools.product(range(7), repeat=max(0, nsel - 4)):
+            i += 1
+            hs.append(harness(i, ncl, ar, nq, prefix, hi=6))
     nfind = len(hs)
     hs += variant_harnesses(tier, seed)
     timeout = 150 if tier == "quick" else 900
@@ -260,7 +284,7 @@ def main(tier, seed):
                 else:
                     st.ob("inconclusive", key=okey, note="counterexample did not replay: %s" % detail[:100])
             continue
-        okey = "clauses=%d arity=%d calls=%d first=%s" % (h.meta["clauses"], h.meta["arity"], h.meta["calls"], h.meta["first"])
+        okey = "clauses=%d arity=%d calls=%d kinds=%d first=%s" % (h.meta["clauses"], h.meta["arity"], h.meta["calls"], h.meta.get("kinds", 3), h.meta["first"])
         if verdict == "confirmed":
             st.ob("proved", key=okey)
         elif verdict == "inconclusive":
@@ -273,7 +297,7 @@ def main(tier, seed):
                 ok = kind == "exc" or val is False
             if ok:
                 st.ob("refuted", key=okey)
-                st.violation("clause-index:order-or-membership", "ClauseIndex.find with argument kinds %s (0 variable, 1 a, 2 b; %s): "
+                st.violation("clause-index:order-or-membership", "ClauseIndex.find with argument kinds %s (0 variable, 1 a, 2 b, 3 f(V), 4 f(g(V)), 5 f(a), 6 f(g(a)); %s): "
                              "result differs from the matching clauses in program order" % (call[1:], okey),
                              {"kind": "xh", "harness": h.source, "name": h.name, "args": list(call[1]), "kwargs": call[2]})
             else:
